@@ -82,7 +82,7 @@ package openapi3
 //@   ensures (result.1 == nil) <==> compiles(schema.Pattern)
 //@   ensures result.1 == nil ==> result.0 != nil && matcherFor(result.0, schema.Pattern)
 //@   ensures result.1 != nil ==> typeof(result.1) == type *SchemaError
-//@   tag C01 C10
+//@   tag C01 C10 C15
 
 //@ spec validString(s *Schema, x string) bool :=
 //@     permits(s.Type, "string")
